@@ -15,13 +15,21 @@ for d in seeded/$GLOB/; do
     id=$(basename "$d")
     [ -f "$d/patch.diff" ] || continue
     prop=$(python3 -c "import json;print(json.load(open('$d/meta.json'))['property'])")
-    git -C /repo apply "/verif/${d}patch.diff" || { echo "| $id | $prop | patch does not apply | |" >> $OUT; continue; }
-    ./check "$TIER" "$prop" > /tmp/run_seeded.log 2>&1; rc=$?
-    git -C /repo checkout -- .
+    tier=$(python3 -c "import json;print(json.load(open('$d/meta.json')).get('check_tier','$TIER'))")
+    expmiss=$(python3 -c "import json;print(json.load(open('$d/meta.json')).get('expected_miss',False))")
+    if [ "$tier" = polars ]; then
+        /verif/tools/try_mutant_polars.sh "/verif/${d}patch.diff" "$prop" > /tmp/run_seeded.log 2>&1; rc=$?
+        sed -i 's/^check exit.*//' /tmp/run_seeded.log
+    else
+        git -C /repo apply "/verif/${d}patch.diff" || { echo "| $id | $prop | patch does not apply | |" >> $OUT; continue; }
+        ./check "$tier" "$prop" > /tmp/run_seeded.log 2>&1; rc=$?
+        git -C /repo checkout -- .
+    fi
     cls=$(grep -m1 "^violation of\|process died" /tmp/run_seeded.log | sed 's/^violation of [A-Z0-9]* \[\([^]]*\)\].*/\1/' | cut -c1-80)
-    echo "| $id | $prop | $rc | $cls |" >> $OUT
-    echo "$id $prop exit=$rc $cls"
-    [ $rc -eq 1 ] || miss=$((miss+1))
+    note=""; [ "$tier" = polars ] && note=" (Polars build, thorough tier)"; [ "$expmiss" = True ] && note=" (documented miss, see meta.json)"
+    echo "| $id | $prop | $rc | $cls$note |" >> $OUT
+    echo "$id $prop exit=$rc $cls$note"
+    if [ $rc -ne 1 ] && [ "$expmiss" != True ]; then miss=$((miss+1)); fi
 done
 echo "" >> $OUT
 echo "missed: $miss" >> $OUT
